@@ -15,6 +15,8 @@ import (
 	"os"
 	"reflect"
 	"strings"
+	"sync"
+	"sync/atomic"
 	"time"
 
 	"github.com/mattn/anko/env"
@@ -872,6 +874,88 @@ func scenarios(out string) {
 	fld("typednil-keeps-type", "tn(nilp)", wantV("*main.Host"))
 	fld("typednil-map-to-int", "gi(nilm)", wantErr)
 	var sum Summary
+	// ONE converted script function invoked by the host from many goroutines at once (a handler, a worker pool): every invocation sees its own arguments
+	for _, sh := range []struct{ name, src string }{{"fixed", "par(func(x) { return x }, 8, 400)"}, {"two-params", "par2(func(x, y) { return x * 1000 + y }, 8, 400)"}, {"variadic", "par(func(x...) { return x[0] }, 8, 400)"},
+		{"closure", "k = 1\npar(func(x) { return x * k }, 8, 400)"}, {"named", "func echo(x) { return x }\npar(echo, 8, 400)"}} {
+		sh := sh
+		ss = append(ss, scen{"callback-concurrent-" + sh.name, sh.src, func(e *env.Env) {
+			e.Define("par", func(cb func(int64) int64, g, n int64) int64 {
+				var bad int64
+				var wg sync.WaitGroup
+				for w := int64(0); w < g; w++ {
+					wg.Add(1)
+					go func(w int64) {
+						defer wg.Done()
+						for i := int64(0); i < n; i++ {
+							if v := w*1000000 + i; cb(v) != v {
+								atomic.AddInt64(&bad, 1)
+							}
+						}
+					}(w)
+				}
+				wg.Wait()
+				return bad
+			})
+			e.Define("par2", func(cb func(int64, int64) int64, g, n int64) int64 {
+				var bad int64
+				var wg sync.WaitGroup
+				for w := int64(0); w < g; w++ {
+					wg.Add(1)
+					go func(w int64) {
+						defer wg.Done()
+						for i := int64(0); i < n; i++ {
+							if cb(w, i%1000) != w*1000+i%1000 {
+								atomic.AddInt64(&bad, 1)
+							}
+						}
+					}(w)
+				}
+				wg.Wait()
+				return bad
+			})
+		}, func(res interface{}, err error, e *env.Env) string {
+			if err != nil {
+				return "error " + err.Error()
+			}
+			if res != int64(0) {
+				return fmt.Sprintf("%v invocations of the callback saw arguments of another invocation", res)
+			}
+			return ""
+		}})
+	}
+	// two DIFFERENT Go struct types that print the same name (two packages of one name, function-local types) with other field layouts: member syntax reads and
+	// writes the value's OWN fields, in either order of first use
+	type sameName struct {
+		Sensor string
+		Value  int64
+	}
+	mkOther := func() interface{} {
+		type sameName struct {
+			Value  int64
+			Sensor string
+		}
+		return &sameName{Value: 2, Sensor: "new"}
+	}
+	for _, order := range []string{"ab", "ba"} {
+		order := order
+		src := "ra = [a.Value, a.Sensor]\nrb = [b.Value, b.Sensor]\nb.Value = 65\na.Value = 66\n[ra, rb, a.Value, b.Value, a.Sensor, b.Sensor]"
+		if order == "ba" {
+			src = "rb = [b.Value, b.Sensor]\nra = [a.Value, a.Sensor]\na.Value = 66\nb.Value = 65\n[ra, rb, a.Value, b.Value, a.Sensor, b.Sensor]"
+		}
+		ss = append(ss, scen{"same-type-name-" + order, src, func(e *env.Env) {
+			e.Define("a", &sameName{Sensor: "old", Value: 1})
+			e.Define("b", mkOther())
+		}, func(res interface{}, err error, e *env.Env) string {
+			if err != nil {
+				return "error " + err.Error()
+			}
+			want := []interface{}{[]interface{}{int64(1), "old"}, []interface{}{int64(2), "new"}, int64(66), int64(65), "old", "new"}
+			if !reflect.DeepEqual(res, want) {
+				return fmt.Sprintf("got %v, want %v", res, want)
+			}
+			return ""
+		}})
+	}
 	for _, s := range ss {
 		e := env.NewEnv()
 		seen = nil
